@@ -59,7 +59,9 @@ fn gen(seed: u64, idx: u64, _tier: Tier) -> Plan {
         s.workers = *rng.pick(&[1i64, 1, 2, 4]);
         s.batch_size = *rng.pick(&[1i64, 2, 8, 64, 64]);
         s.log_level = Some(0);
-        plan.world.wall_secs = pick_midp_secs(&mut rng);
+        // the statement covers midpoints through year 9999: keep the whole run (4 simulated s)
+        // on this side of 10000-01-01
+        plan.world.wall_secs = pick_midp_secs(&mut rng).min(Y9999 - 10);
         plan.world.wall_nanos = rng.below(1_000_000_000) as u32;
         let pk = r::pubkey_from_seed(&crate::exec::hex_decode(&s.seed_hex).unwrap());
         plan.server = Some(s);
